@@ -720,6 +720,9 @@ func (fg *FuncGen) load(p *Ptr) string {
 	case "aidx":
 		return "(select " + fg.load(p.Parent) + " " + p.Idx + ")"
 	case "elem":
+		if p.ElemSort == "Val" {
+			return fmt.Sprintf("(gat %s %s %s)", fg.famIn(fg.st, g.SeqFamily(p.ElemSort)), p.Slice, p.Idx)
+		}
 		return fmt.Sprintf("(select (select %s (sref %s)) (+ (soff %s) %s))", fg.famIn(fg.st, g.SeqFamily(p.ElemSort)), p.Slice, p.Slice, p.Idx)
 	}
 	return "0"
@@ -1149,10 +1152,46 @@ func (fg *FuncGen) finishReturns() {
 	if fg.c == nil {
 		return
 	}
+	nEns := 0
+	for _, en := range fg.c.Ensures {
+		if !en.Defines {
+			nEns++
+		}
+	}
+	merge := nEns*len(fg.retBlocks) > 300
 	for k, b := range fg.retBlocks {
 		fg.segIdx = b.Index
 		fg.curReach = fg.reach[b]
 		env := fg.funcEnv(fg.retSt[b], State{}, fg.retVals[b])
+		if merge {
+			// many returns x many clauses: one obligation per return (conjunction of all postconditions)
+			var parts []string
+			tagset := map[string]bool{}
+			for _, en := range fg.c.Ensures {
+				if en.Defines {
+					continue
+				}
+				t := env.Tr(en.E)
+				if fg.err != nil {
+					fg.err = fmt.Errorf("%s: %v", en.Pos, fg.err)
+					return
+				}
+				parts = append(parts, t.S)
+				for _, tg := range pick(en.Tags, fg.c.Tags) {
+					tagset[tg] = true
+				}
+			}
+			var tags []string
+			for tg := range tagset {
+				tags = append(tags, tg)
+			}
+			sort.Strings(tags)
+			o := fg.obl("post", fmt.Sprintf("post.all@ret%d", k+1), fg.fn.Pos(), tags, "(and "+strings.Join(parts, " ")+")", "all postconditions of "+shortKey(fg.key))
+			if in := b.Instrs[len(b.Instrs)-1]; in.Pos().IsValid() {
+				o.Pos = fg.g.pos(in.Pos())
+			}
+			continue
+		}
 		for i, en := range fg.c.Ensures {
 			if en.Defines {
 				continue
